@@ -44,13 +44,16 @@ const (
 	eO1                   // other text, then line break
 )
 
-type sshape struct{ start, end uint8 }
+type sshape struct {
+	start, end uint8
+	ml         bool // may contain a line break that is part of a token's own text (multi-line documentation string)
+}
 
-var shapeUnknown = sshape{sE | sN | sO, eE | eN | eO0 | eO1}
-var shapeOther = sshape{sO, eO0}
-var shapeEmpty = sshape{sE, eE}
+var shapeUnknown = sshape{sE | sN | sO, eE | eN | eO0 | eO1, false}
+var shapeOther = sshape{sO, eO0, false}
+var shapeEmpty = sshape{sE, eE, false}
 
-func (a sshape) union(b sshape) sshape { return sshape{a.start | b.start, a.end | b.end} }
+func (a sshape) union(b sshape) sshape { return sshape{a.start | b.start, a.end | b.end, a.ml || b.ml} }
 func (a sshape) bottom() bool         { return a.start == 0 && a.end == 0 }
 
 func addNL(end uint8) uint8 {
@@ -83,6 +86,7 @@ func shapeConcat(a, b sshape) sshape {
 		out.end |= addNL(a.end)
 	}
 	out.end |= b.end &^ (eE | eN)
+	out.ml = a.ml || b.ml
 	return out
 }
 
@@ -132,7 +136,67 @@ type fmtState struct {
 	memo     map[string]*fctx
 	order    []*fctx
 	builders map[*ssa.Function][]*ssa.Alloc
+	mlSinks  map[*ssa.Call]bool
 	changed  bool
+}
+
+// textMaySpanLines: recv.GetText() may contain a line break inside a token (recv: a terminal obtained through the accessor of a
+// lexer rule that admits line breaks, or a rule context whose subtree contains such a token; terminals of unknown kind count).
+func (fs *fmtState) textMaySpanLines(recv ssa.Value) bool {
+	g := fs.w.G4
+	if g == nil {
+		return false
+	}
+	recv = stripIdentity(recv)
+	if ctx := grammarCtxName(recv.Type()); ctx != "" {
+		if ci := fs.w.ctxTable()[ctx]; ci != nil {
+			return g.RuleAdmitsLineBreak(ci.Rule)
+		}
+		return true
+	}
+	if c, ok := recv.(*ssa.Call); ok {
+		name := ""
+		if c.Call.IsInvoke() {
+			name = c.Call.Method.Name()
+		} else if f := c.Call.StaticCallee(); f != nil {
+			name = f.Name()
+		}
+		if g.lrule[name] != nil {
+			return g.AdmitsLineBreak(name)
+		}
+		// label accessors (GetName(), GetFrom() ...) return the token of a labelled child
+		if strings.HasPrefix(name, "Get") && len(c.Call.Args)+boolToInt(c.Call.IsInvoke()) >= 1 {
+			var holder ssa.Value
+			if c.Call.IsInvoke() {
+				holder = c.Call.Value
+			} else if len(c.Call.Args) > 0 {
+				holder = c.Call.Args[0]
+			}
+			if holder != nil {
+				if ctx := grammarCtxName(holder.Type()); ctx != "" {
+					if ci := fs.w.ctxTable()[ctx]; ci != nil {
+						lbl := strings.TrimPrefix(name, "Get")
+						for l, child := range ci.Labels {
+							if strings.EqualFold(l, lbl) {
+								if ci.IsTok[child] {
+									return g.AdmitsLineBreak(child)
+								}
+								return g.RuleAdmitsLineBreak(child)
+							}
+						}
+					}
+				}
+			}
+		}
+	}
+	return false
+}
+
+func boolToInt(b bool) int {
+	if b {
+		return 1
+	}
+	return 0
 }
 
 // fctx: one function analysed for one combination of string-argument shapes (helpers such as "take the comments, each followed by
@@ -151,7 +215,7 @@ func (fs *fmtState) analyze(fn *ssa.Function, args []sshape) *fctx {
 	key := fmt.Sprintf("%p", fn)
 	for i, p := range fn.Params {
 		if isStringType(p.Type()) && i < len(args) {
-			key += fmt.Sprintf("|%d:%d.%d", i, args[i].start, args[i].end)
+			key += fmt.Sprintf("|%d:%d.%d.%t", i, args[i].start, args[i].end, args[i].ml)
 		}
 	}
 	if c, ok := fs.memo[key]; ok {
@@ -238,6 +302,7 @@ func (fs *fctx) set(v ssa.Value, s sshape) {
 
 func trimRightShape(s sshape) sshape {
 	var out sshape
+	out.ml = s.ml
 	out.start = s.start
 	if s.end&eN != 0 {
 		out.start |= sE
@@ -260,7 +325,7 @@ func trimRightShape(s sshape) sshape {
 }
 
 func trimLeftShape(s sshape) sshape {
-	out := sshape{s.start &^ sN, s.end}
+	out := sshape{s.start &^ sN, s.end, s.ml}
 	if s.start&sN != 0 {
 		out.start |= sE | sC | sO // whatever follows the leading line breaks
 		if s.end&(eC0|eC1) == 0 {
@@ -433,9 +498,11 @@ func (fs *fctx) evalCall(c *ssa.Call) {
 	if cc.IsInvoke() {
 		if cc.Method.Name() == "GetText" {
 			if fs.fs.hidden[stripIdentity(cc.Value)] {
-				fs.set(c, sshape{sC, eC0})
+				fs.set(c, sshape{sC, eC0, false})
 			} else {
-				fs.set(c, shapeOther)
+				sh := shapeOther
+				sh.ml = fs.fs.textMaySpanLines(cc.Value)
+				fs.set(c, sh)
 			}
 			return
 		}
@@ -510,6 +577,15 @@ func (fs *fctx) evalCall(c *ssa.Call) {
 			if n.bottom() {
 				return
 			}
+			if x := fs.get(cc.Args[0]); x.ml {
+				if n.start&sN == 0 && n.end&(eN|eC1|eO1) == 0 {
+					// every line break is replaced by text without one: the result is a single line (a protected form of the text)
+					x.ml = false
+					fs.set(c, sshape{x.start &^ sN, eE | eO0 | (x.end & eC0), false})
+					return
+				}
+				fs.fs.mlSinks[c] = true
+			}
 			if n.start == sN && n.end&^(eN) == 0 {
 				if s := fs.get(cc.Args[0]); !s.bottom() {
 					fs.set(c, s)
@@ -517,7 +593,12 @@ func (fs *fctx) evalCall(c *ssa.Call) {
 				return
 			}
 		}
-		fs.set(c, shapeUnknown.union(sshape{0, fs.get(cc.Args[0]).end & (eC0 | eC1)}))
+		fs.set(c, shapeUnknown.union(sshape{0, fs.get(cc.Args[0]).end & (eC0 | eC1), fs.get(cc.Args[0]).ml}))
+		return
+	case "strings.Split", "strings.SplitN", "strings.SplitAfter", "strings.Fields", "strings.Lines":
+		if x := fs.get(cc.Args[0]); x.ml {
+			fs.fs.mlSinks[c] = true
+		}
 		return
 	case "(*strings.Builder).String":
 		if s, ok := fs.bstate[c]; ok {
@@ -758,7 +839,7 @@ func (fs *fctx) builderFlow(al *ssa.Alloc) {
 						if isEmpty {
 							out.cur = s.prev
 						} else {
-							ne := sshape{s.lastShp.start &^ sE, s.lastShp.end &^ eE}
+							ne := sshape{s.lastShp.start &^ sE, s.lastShp.end &^ eE, s.lastShp.ml}
 							if !ne.bottom() {
 								out.cur = shapeConcat(s.prev, ne)
 							}
@@ -781,7 +862,7 @@ func (fs *fctx) builderFlow(al *ssa.Alloc) {
 func fmtCommentEndsLine(w *World, r *Report, prop string) {
 	rule := prop + "/comment-ends-its-line"
 	cf := newCmtFlow(w)
-	fs := &fmtState{w: w, cf: cf, hidden: map[ssa.Value]bool{}, memo: map[string]*fctx{}, builders: map[*ssa.Function][]*ssa.Alloc{}}
+	fs := &fmtState{w: w, cf: cf, hidden: map[ssa.Value]bool{}, memo: map[string]*fctx{}, builders: map[*ssa.Function][]*ssa.Alloc{}, mlSinks: map[*ssa.Call]bool{}}
 	// hidden-channel tokens
 	var seeds []ssa.Value
 	for _, fn := range cf.fns {
@@ -1043,6 +1124,33 @@ func fmtCommentEndsLine(w *World, r *Report, prop string) {
 		if cnt[fnKey(fn)] == 0 && (len(fs.builders[fn]) > 0 || fn.Signature.Results().Len() > 0) {
 			r.pass(rule, fnKey(fn)+": no token text directly behind a comment", w.pos(fn.Pos()), "")
 		}
+	}
+	// ---- line breaks inside a token's text are not rewritten ----
+	ruleML := prop + "/multi-line-token-text-untouched"
+	var sinks []*ssa.Call
+	for c := range fs.mlSinks {
+		sinks = append(sinks, c)
+	}
+	sort.Slice(sinks, func(i, j int) bool { return sinks[i].Pos() < sinks[j].Pos() })
+	bySinkFn := map[string]*ssa.Call{}
+	for _, c := range sinks {
+		k := fnKey(c.Parent())
+		if bySinkFn[k] == nil {
+			bySinkFn[k] = c
+		}
+	}
+	var mlTokens []string
+	for _, lr := range w.G4.LRules {
+		if lr.Action == "" && w.G4.AdmitsLineBreak(lr.Name) {
+			mlTokens = append(mlTokens, lr.Name)
+		}
+	}
+	for _, k := range sortedKeys(bySinkFn) {
+		c := bySinkFn[k]
+		r.fail(ruleML, k+" does not rewrite line breaks that belong to a token", w.instrPos(c), "text that may contain a token spanning several lines ("+strings.Join(mlTokens, ", ")+") reaches "+calleeName(c)+" on its line breaks: the continuation lines of the token are re-indented, i.e. the token's text changes - and changes again on every further pass")
+	}
+	if len(bySinkFn) == 0 {
+		r.pass(ruleML, "no line-break rewriting of multi-line token text", "internal/parser/packet_dsl_formattor.go", strings.Join(mlTokens, ", "))
 	}
 	r.note("%s: %d hidden-token values, %d function contexts, %d concatenations / writes judged", rule, len(fs.hidden), len(fs.order), nChecked)
 	if !sawComment {
